@@ -11,6 +11,14 @@ def kindNode (c : Char) : Option (Option Node) :=
   else if c = 'D' then some (some (.link .toDir))
   else if c = 'F' then some (some (.link .toFile))
   else if c = 'x' then some (some (.link .dangling))
+  -- further ways of (not) being a directory: non-empty directory, symlink chain ending in a directory, relative symlink
+  -- to a directory, directory without permission bits; symlink loop, FIFO
+  else if c = 'e' then some (some (.dir [([102], .file [])]))
+  else if c = 'C' then some (some (.link .toDir))
+  else if c = 'r' then some (some (.link .toDir))
+  else if c = 'm' then some (some (.dir []))
+  else if c = 'l' then some (some (.link .dangling))
+  else if c = 'p' then some (some (.file []))
   else none
 
 def subs : List LSub := [.bin, .lib, .incl, .pkgconfig]
@@ -26,7 +34,7 @@ def layerOf (kinds : List Char) : Option Dir :=
 def isDirOf (kinds : List Char) (s : LSub) : Bool :=
   let i := match s with | .bin => 0 | .lib => 1 | .incl => 2 | .pkgconfig => 3
   match kinds[i]? with
-  | some c => c = 'd' || c = 'D'
+  | some c => c = 'd' || c = 'D' || c = 'e' || c = 'C' || c = 'r' || c = 'm'
   | none => false
 
 /-- env entries of the snapshot only (the four sub-directories are inputs) -/
@@ -43,9 +51,18 @@ def cycles (lp : Bytes) (l : Dir) : Nat → List String
       | none => ["err:io"]
       | some l' => envSnap l' :: cycles lp l' n
 
-def specProbes10 (ins : List Ins) (kinds : List Char) (names : List Bytes) : String :=
+/-- starting environments of the probes: the two of C03 (unset / every name = "0") and, when the case carries one, a
+third with the given values -/
+def probeEnvs10 (names : List Bytes) (start : Option Env) : List Env :=
+  probeEnvs names ++ (match start with | some e => [e] | none => [])
+
+def renderProbes10 (apply : Scope → Env → Env) (names : List Bytes) (start : Option Env) : String :=
   String.intercalate "|" (probeScopes.flatMap (fun (tag, sc) =>
-    (probeEnvs names).zipIdx.map (fun (e, i) =>
+    (probeEnvs10 names start).zipIdx.map (fun (e, i) => tag ++ ">" ++ toString i ++ ">" ++ renderEnv (apply sc e))))
+
+def specProbes10 (ins : List Ins) (kinds : List Char) (names : List Bytes) (start : Option Env := none) : String :=
+  String.intercalate "|" (probeScopes.flatMap (fun (tag, sc) =>
+    (probeEnvs10 names start).zipIdx.map (fun (e, i) =>
       let ns := dedup (e.keys ++ ins.map (·.name) ++ layerPathTable.map (·.1))
       let out : Env := ns.filterMap (fun n =>
         let ex := specApply ins sc e n
@@ -56,11 +73,16 @@ def specProbes10 (ins : List Ins) (kinds : List Char) (names : List Bytes) : Str
         v.map (fun v => (n, v)))
       tag ++ ">" ++ toString i ++ ">" ++ renderEnv out)))
 
-def handle (fields : List String) (obs : String) : String × String :=
-  match fields with
-  | [kindsS, insS, namesS] =>
-    match layerOf kindsS.toList, parseInsList insS, parseNames namesS with
-    | some l0, some ins, some names =>
+/-- the optional starting environment of a case: `-` = none, else `hexname=hexvalue,…` -/
+def parseStart (s : String) : Option (Option Env) :=
+  if s = "-" then some none else (parseEnv s).map some
+
+/-- flags of a case (how the harness reaches the layer directory); they do not change what is expected -/
+def flagsOk (s : String) : Bool := s = "-" || s = "linked"
+
+def handle5 (kindsS insS namesS : String) (start : Option (Option Env)) (obs : String) : String × String :=
+    match layerOf kindsS.toList, parseInsList insS, parseNames namesS, start with
+    | some l0, some ins, some names, some start =>
       let lp := strBytes "$L"
       match writeToLayerDir (buildLe ins) l0 with
       | none => ("err:io", "fail:could not write the explicit environment")
@@ -69,7 +91,7 @@ def handle (fields : List String) (obs : String) : String × String :=
         let model :=
           match readFromLayerDir lp l1 with
           | none => "probes=err:io"
-          | some le => "probes=" ++ renderProbes le.apply names ++ ";cycles=" ++
+          | some le => "probes=" ++ renderProbes10 le.apply names start ++ ";cycles=" ++
               String.intercalate "#" (first :: cycles lp l1 3)
         let expectSnap := joinWith "," (sortBy strLt
           ((specFiles ins).map (fun (p, c) => "F " ++ pathStr p ++ " " ++ hexEncode c) ++
@@ -78,7 +100,7 @@ def handle (fields : List String) (obs : String) : String × String :=
         let verdict :=
           match splitKV obs with
           | [("probes", probes), ("cycles", cyc)] =>
-            if probes ≠ specProbes10 ins kindsS.toList names then
+            if probes ≠ specProbes10 ins kindsS.toList names start then
               "fail:implicit layer paths wrong: got " ++ probes
             else
               match (cyc.splitOn "#").find? (fun s => s ≠ expectSnap) with
@@ -86,7 +108,13 @@ def handle (fields : List String) (obs : String) : String × String :=
               | none => if (cyc.splitOn "#").length = 4 then "ok" else "fail:expected 4 snapshots"
           | _ => "fail:unparsable observation " ++ obs
         (model, verdict)
-    | _, _, _ => ("bad-op", "bad-op")
+    | _, _, _, _ => ("bad-op", "bad-op")
+
+def handle (fields : List String) (obs : String) : String × String :=
+  match fields with
+  | [kindsS, insS, namesS] => handle5 kindsS insS namesS (some none) obs
+  | [kindsS, insS, namesS, startS, flagsS] =>
+    if flagsOk flagsS then handle5 kindsS insS namesS (parseStart startS) obs else ("bad-op", "bad-op")
   | _ => ("bad-op", "bad-op")
 
 end CnbVerif.DriverC10
